@@ -379,12 +379,20 @@ def r5_reads_before_partial_revert(ctx):
                         ctx.ok("C02.R5", sf.f, t, f"`{name}` and what it evaluates downstream of `{v}` keep the individual axis in {g.cfg.name}", instance=f"{g.cfg.name}:{v}")
 
 
+def r6_put_out_of_place(ctx):
+    """The REF snapshot holds the very tensor that was current before the proposal: a proposal applied in place (`value[idx] = v`,
+    `index_put_`, ...) changes the snapshot too, and a later revert restores the proposed entries."""
+    from .c01 import state_put_out_of_place
+    state_put_out_of_place(ctx, rid="C02.R6", why="the by-reference snapshot shares that tensor, so a rejected proposal is 'restored' with the proposed entries in it")
+
+
 def rules(ctx):
     r1_snapshot(ctx)
     r2_typestate(ctx)
     r3_revert_structure(ctx)
     r4_selection(ctx)
     r5_reads_before_partial_revert(ctx)
+    r6_put_out_of_place(ctx)
     ctx.trust("torch.where selects element-wise without arithmetic on the unselected operand")
     ctx.assume("samplers are the only callers of State.revert during sampling (checked for C13)")
 
